@@ -13,9 +13,11 @@ class GopherProtocol(BaseGopherProtocol):
         return True
 
     def renderobjinfo(self, entry):
+        # A TAB inside the display string (an abstract line, a Name= from a
+        # link file) would be read as a field separator by the client.
         retval = (
             entry.gettype("0")
-            + entry.getname()
+            + (entry.getname() or "").replace("\t", " ")
             + "\t"
             + entry.getselector()
             + "\t"
